@@ -8,6 +8,7 @@ from .. import bits, fields
 from ..core import call_attr, calls_in, const, dotted, is_const, kwarg, norm, slice_parts, text, walk_local
 
 EXPLANATION = [
+    'C01.parsed-verbatim: in every function of bumble.hci that binds names with struct.unpack / unpack_from, no such name is afterwards replaced by a value that does not depend on it (zeroed, defaulted): parsed fields reach the object as read.',
     'C01.return-parameters-fields: every HCI return-parameters dataclass that declares fields of its own gets a wire layout: passed to sync_command(...) or given `fields` explicitly.',
     'C01.walrus: no assignment expression in bumble.hci captures the result of a comparison instead of the compared value (`x := d.get(k) is not None`).',
     'C01.zip-star: no parser in bumble.hci unpacks `zip(*rows)`: list-valued packets keep their zero-entry form (and their columns stay lists).',
@@ -677,7 +678,13 @@ def return_parameters_fields(ctx):
     R.check(n >= 60 and len(registered) >= 100, rule, 'bumble.hci | return parameter classes', f'{n} classes, {len(registered)} registered through sync_command', f'only {n} classes / {len(registered)} registrations found')
 
 
+def parsed_verbatim(ctx):
+    from ..generic_rules import rebound_parsed_names
+    rebound_parsed_names(ctx, 'C01.parsed-verbatim', ['bumble.hci'], floor=5)
+
+
 RULES = [
+    ('C01.parsed-verbatim', parsed_verbatim),
     ('C01.return-parameters-fields', return_parameters_fields),
     ('C01.walrus', walrus_rule),
     ('C01.zip-star', zip_star_rule),
